@@ -71,3 +71,46 @@ Proof.
   assert (En : RxNorm.norm (w_regex a) = RxNorm.norm WORD_SAMPLE_RX) by (vm_compute in E; injection E as <-; vm_compute; reflexivity).
   transitivity (ms s (RxNorm.norm (w_regex a)) i c); [symmetry; apply RxNorm.ms_norm|]. rewrite En. apply RxNorm.ms_norm.
 Qed.
+
+(* ======== the other half: every occurrence of a case variant of a listed word is matched ======== *)
+Require RxSub Ipv4Token.
+Lemma lang_lit_icase_self (w t : list chr) : Forall2 folds_to t w -> lang (lit_icase_rx w) t.
+Proof.
+  induction 1 as [|x c t w Hx _ IH]; cbn [lit_icase_rx fold_right]; [constructor|]. fold (lit_icase_rx w). change (x :: t) with ([x] ++ t)%list.
+  constructor; [constructor; exact Hx|exact IH].
+Qed.
+Lemma lang_alt_icase_in (ws : list (list chr)) w t : In w ws -> Forall2 folds_to t w -> lang (alt_of (map lit_icase_rx ws)) t.
+Proof.
+  induction ws as [|m [|m2 ws] IH]; intros H F; [destruct H| |].
+  - destruct H as [<-|[]]. cbn [map alt_of]. now apply lang_lit_icase_self.
+  - cbn [map alt_of]. destruct H as [<-|H]; [apply LAltL; now apply lang_lit_icase_self|apply LAltR, IH; assumption].
+Qed.
+Lemma wfr_lit_icase w : wfr (lit_icase_rx w) = true.
+Proof. induction w as [|c w IH]; cbn [lit_icase_rx fold_right wfr]; [reflexivity|]. fold (lit_icase_rx w). exact IH. Qed.
+Lemma wfr_alt_icase (ws : list (list chr)) : wfr (alt_of (map lit_icase_rx ws)) = true.
+Proof. induction ws as [|n [|m ws] IH]; cbn [map alt_of wfr]; [reflexivity|apply wfr_lit_icase|]. rewrite wfr_lit_icase. exact IH. Qed.
+
+Theorem word_occurrence_is_matched (s : list chr) (words reserved : list str) (salt : str) (a : word_anonymizer) (w t : list chr) i c :
+  word_init words salt reserved = Done a -> In w (map lower_str words) -> Forall2 folds_to t w -> occ s t i ->
+  exists j c', In (j, c') (ms s (w_regex a) i c).
+Proof.
+  intros E Hin F O. unfold word_init in E. destruct (forallb word_safe words); cbn [negb] in E; [|discriminate]. injection E as <-. cbn [w_regex].
+  assert (Hs : In w (sort_words (map lower_str words))) by (now apply (proj2 (SortProofs.sort_words_spec _))).
+  destruct (lang_ms s _ (pure_alt_icase _) (wfr_alt_icase _) t i c (lang_alt_icase_in _ w t Hs F) O) as (c1 & H1).
+  do 2 eexists. cbn [ms]. apply in_map_iff. eexists (_, c1). split; [reflexivity|exact H1].
+Qed.
+
+(* hence the leftmost search over a token that contains such an occurrence finds a match: the token is rewritten (unless it is a reserved word, which the
+   stage tests first) *)
+Theorem word_occurrence_makes_the_pattern_match (s : list chr) (words reserved : list str) (salt : str) (a : word_anonymizer) (w t : list chr) i :
+  word_init words salt reserved = Done a -> In w (map lower_str words) -> w <> [] -> Forall2 folds_to t w -> occ s t i ->
+  RxSub.search s (w_regex a) <> None.
+Proof.
+  intros E Hin Hw F O. destruct (word_occurrence_is_matched s words reserved salt a w t i [] E Hin F O) as (j & c' & H).
+  assert (Ht : t <> []) by (inversion F; subst; [contradiction|discriminate]).
+  assert (Hi : i <= List.length s) by (pose proof (occ_len s _ _ O Ht); lia).
+  assert (M : exists p, match_at s (w_regex a) i = Some p).
+  { unfold match_at. rewrite m_is_first_of_ms. destruct (ms s _ i []) as [|p l]; [destruct H|]. cbn [first_some]. eauto. }
+  destruct M as ([b cb] & M). unfold RxSub.search.
+  destruct (Ipv4Token.search_from_finds s _ (Rx.slen s) 0 i b cb M ltac:(lia) ltac:(unfold Rx.slen; lia)) as (a' & b' & c'' & S & _). rewrite S. discriminate.
+Qed.
